@@ -123,6 +123,14 @@ def inline_locals(fnode, expr, depth=4):
                     if t.id in defs:
                         multi.add(t.id)
                     defs[t.id] = s.value
+                elif isinstance(t, (ast.Tuple, ast.List)) and isinstance(s.value, (ast.Tuple, ast.List)) and len(t.elts) == len(s.value.elts) and all(isinstance(e, ast.Name) for e in t.elts) and not any(isinstance(e, ast.Starred) for e in s.value.elts):
+                    # a, b = x, y  (element-wise; the right-hand sides must not read a target)
+                    tn = {e.id for e in t.elts}
+                    clash = any(isinstance(n, ast.Name) and n.id in tn for v in s.value.elts for n in ast.walk(v))
+                    for e, v in zip(t.elts, s.value.elts):
+                        if e.id in defs or clash:
+                            multi.add(e.id)
+                        defs[e.id] = v
                 else:
                     for n in ast.walk(t):
                         if isinstance(n, ast.Name) and isinstance(n.ctx, ast.Store):
@@ -135,6 +143,10 @@ def inline_locals(fnode, expr, depth=4):
                     multi.add(n.id)
         elif isinstance(s, ast.Call) and isinstance(s.func, ast.Attribute) and isinstance(s.func.value, ast.Name) and s.func.attr in ("append", "insert", "pop", "remove", "extend", "sort", "reverse"):
             multi.add(s.func.value.id)  # mutated containers are not named temporaries
+    for nm, v in list(defs.items()):
+        # x = L.pop(i): the definition has an effect and must stay where it is
+        if any(isinstance(c, ast.Call) and isinstance(c.func, ast.Attribute) and c.func.attr in ("pop", "popitem", "append", "insert", "remove", "extend", "sort", "reverse", "clear", "update", "setdefault") for c in ast.walk(v)):
+            multi.add(nm)
 
     class T(ast.NodeTransformer):
         def __init__(self, d):
